@@ -1285,6 +1285,12 @@ func (t *Topic) handleNoteBroadcast(msg *ClientComMessage) {
 
 // handlePresence fans out {pres} messages to recipients in topic.
 func (t *Topic) handlePresence(msg *ServerComMessage) {
+	if msg.Pres.What == "gone" && t.cat == types.TopicCatGrp {
+		// The account of a subscriber was deleted and the subscription with it.
+		t.subscriberGone(types.ParseUserId(msg.Pres.Src))
+		return
+	}
+
 	what := t.procPresReq(msg.Pres.Src, msg.Pres.What, msg.Pres.WantReply)
 	if t.xoriginal != msg.Pres.Topic || what == "" {
 		// This is just a request for status, don't forward it to sessions
@@ -1295,6 +1301,23 @@ func (t *Topic) handlePresence(msg *ServerComMessage) {
 	msg.Pres.What = what
 
 	t.broadcastToSessions(msg)
+}
+
+// subscriberGone drops a subscriber whose account was deleted: the subscription is gone from the database,
+// the topic forgets the user the way it does when the user unsubscribes.
+func (t *Topic) subscriberGone(uid types.Uid) {
+	pud, ok := t.perUser[uid]
+	if !ok || uid.IsZero() || uid == t.owner {
+		// Not a subscriber. The topics of a deleted owner are shut down by the hub.
+		return
+	}
+
+	oldWant, oldGiven := pud.modeWant, pud.modeGiven
+	if pud.isChan {
+		oldWant, oldGiven = types.ModeCChnReader, types.ModeCChnReader
+	}
+	t.notifySubChange(uid, uid, pud.isChan, oldWant, oldGiven, types.ModeUnset, types.ModeUnset, "")
+	t.evictUser(uid, true, "")
 }
 
 // broadcastToSessions writes message to attached sessions.
